@@ -139,6 +139,7 @@ class EvRun(Run):
     def __init__(self, prog: dict, tag: str = "evrun", faults: dict | None = None, keep: bool = False) -> None:
         super().__init__(prog, tag, events=True, keep=keep)
         self.faults = dict(faults or {})
+        self.threaded = bool(self.faults.get("threaded"))     # every delivery on a fresh worker thread (driver.Run.deliver)
         self.cur_h = ""
         self.n_append = 0
         self.n_append_txn = 0
@@ -333,30 +334,6 @@ class EvRun(Run):
         get_event_recorder().record_status_change(event.entity_type, event.entity_id, event.workflow_id,
                                                   WorkflowStatus.RUNNING, WorkflowStatus.SUCCEEDED,
                                                   source_handler="verif-audit")
-
-    def deliver(self, qid=None, ack: bool = True, lookup_fault: bool = False) -> bool:
-        """faults['threaded']: every delivery runs on a FRESH worker thread (its own thread-local connections, its
-        first event append on that thread), which is what a pool of queue workers does; the harness waits for it."""
-        if not self.faults.get("threaded"):
-            return super().deliver(qid, ack, lookup_fault)
-        import threading
-
-        box: dict = {}
-
-        def body():
-            try:
-                box["r"] = Run.deliver(self, qid, ack, lookup_fault)
-            except BaseException as e:  # noqa: BLE001  (VerifCrash is a BaseException)
-                box["e"] = e
-            finally:
-                core.close_thread_connections()
-
-        th = threading.Thread(target=body, name="verif-worker")
-        th.start()
-        th.join()
-        if "e" in box:
-            raise box["e"]
-        return box["r"]
 
     def crash_restart(self) -> None:
         """After VerifCrash propagated: drop everything a killed process loses (open transaction,
